@@ -74,6 +74,9 @@ pub struct Stats {
     pub trymap_inner_events: bool,
     pub lo_gt_hi: bool,
     pub ctx_values_seen: u32,
+    /// some consumer node saw two different context values within one parse
+    pub ctx_multi: u32,
+    pub try_cfg_errs: u32,
     pub fuel_out: bool,
     /// failure events with unspecified positions were generated (nested_delimiters' scanner)
     pub unspecified_events: bool,
@@ -120,6 +123,7 @@ pub struct Rf<'a> {
     /// token ranges consumed inside with_state invocations on the current path: (outer scope, start, end)
     ws_ranges: Vec<(u32, usize, usize)>,
     next_scope: u32,
+    ctx_seen: HashMap<u32, u64>,
     /// user state left behind in the caller's scope after the whole parse
     pub final_state: (u64, u64),
 }
@@ -154,6 +158,7 @@ pub fn eval(g: &G, toks: &[char], opts: RefOpts) -> RefOut {
         fuel: 400_000,
         ws_ranges: vec![],
         next_scope: 1,
+        ctx_seen: HashMap::new(),
         final_state: (0, 0),
     };
     let env = Env { ctx: Val::Unit, st_seed: None, st_start: 0, in_ws: false, depth: 0, scope: 0 };
@@ -291,6 +296,16 @@ impl<'a> Rf<'a> {
         if self.log.len() > lg {
             self.stats.abandoned_pushes += 1;
             self.log.truncate(lg);
+        }
+    }
+
+    fn saw_ctx(&mut self, g: &G, ctx: &Val) {
+        self.stats.ctx_values_seen += 1;
+        let id = self.ids[&(g as *const G)];
+        let d = ctx.digest();
+        match self.ctx_seen.insert(id, d) {
+            Some(old) if old != d => self.stats.ctx_multi += 1,
+            _ => {}
         }
     }
 
@@ -658,7 +673,12 @@ impl<'a> Rf<'a> {
                 Ok((Val::pair(Val::Span(pos, e), v), e))
             }
             Unwrapped(a) => self.ev(a, pos, env),
-            G::Rep(r) => self.rep(r, pos, env),
+            G::Rep(r) => {
+                if r.ctxb != 0 {
+                    self.saw_ctx(g, &env.ctx);
+                }
+                self.rep(r, pos, env)
+            }
             Validate(a, t, k) => {
                 let (v, e) = self.ev(a, pos, env)?;
                 for i in 0..*k {
@@ -830,14 +850,14 @@ impl<'a> Rf<'a> {
             }
             CxObs(a) => {
                 let (v, e) = self.ev(a, pos, env)?;
-                self.stats.ctx_values_seen += 1;
+                self.saw_ctx(g, &env.ctx);
                 Ok((Val::Cx(Box::new(env.ctx.clone()), Box::new(v)), e))
             }
             JustCfg(s) => {
                 let mut t = Vec::new();
                 env.ctx.tokens(&mut t);
                 let seq: Vec<char> = if t.is_empty() { s.chars().collect() } else { t };
-                self.stats.ctx_values_seen += 1;
+                self.saw_ctx(g, &env.ctx);
                 let mut p = pos;
                 for c in &seq {
                     if self.tok(p) == Some(*c) {
@@ -870,13 +890,35 @@ impl<'a> Rf<'a> {
             }
             _ => {}
         }
-        let lo = r.lo as usize;
-        let hi = match (&r.sink, r.hi) {
+        let mut lo = r.lo as usize;
+        let mut rhi = r.hi;
+        if r.ctxb != 0 {
+            // bounds come from the context value of the nearest enclosing provider
+            let n = ctx_num(&env.ctx);
+            match r.ctxb {
+                1 => {
+                    lo = n;
+                    rhi = Some(n as u8);
+                }
+                2 => rhi = Some(n as u8),
+                _ => {
+                    if n % 2 == 1 {
+                        // try_configure returned Err: the parser fails with that error, here
+                        self.stats.try_cfg_errs += 1;
+                        self.custom_event(p, format!("K{}", n), (p, p));
+                        return Err(());
+                    }
+                    lo = n;
+                    rhi = Some(n as u8);
+                }
+            }
+        }
+        let hi = match (&r.sink, rhi) {
             // collect_exactly::<[T; N]> pulls at most N items from the iterator
             (Sink::Exactly(n), h) => Some((*n as usize).min(h.map(|h| h as usize).unwrap_or(usize::MAX))),
             (_, h) => h.map(|h| h as usize),
         };
-        if let Some(h) = r.hi {
+        if let Some(h) = rhi {
             if (h as usize) < lo {
                 self.stats.lo_gt_hi = true;
                 // empty interval: can never succeed. No natural failure event exists.
